@@ -2,6 +2,7 @@
 import re
 from analysis.mir import Body, callee_name, callee_id, op_place, op_local, op_const
 from analysis import nondet as nd
+from analysis import ctrl
 
 LIB_CRATES = ("gds21.lib", "lef21.lib", "layout21raw.lib", "layout21tetris.lib", "layout21utils.lib", "layout21converters.lib")
 
@@ -46,6 +47,37 @@ def untrusted_sort(F, b, t):
         if not CMP_ONLY.search(un):
             return "its ordering function calls %s, so the sort key is derived rather than the entry's own key" % un.split("::")[-1]
     return None
+
+
+_KO = {}
+
+
+def keyed_overwrites(F, fid, depth=0):
+    """parameter positions (1-based) of workspace function `fid` that end up as the key of a HashMap/BTreeMap insert into
+    state reached through one of its reference parameters"""
+    if fid in _KO:
+        return _KO[fid]
+    _KO[fid] = set()
+    g = F.fns.get(fid)
+    if g is None or depth > 3 or not fid.startswith(("layout21", "gds21", "lef21")):
+        return _KO[fid]
+    gb = Body(g)
+    out = set()
+    for bi, t in gb.calls():
+        n = callee_name(t) or ""
+        if re.search(r"(HashMap|BTreeMap)::<.*>::insert$", n) and len(t["args"]) >= 3:
+            m = nd.root_local(gb, t["args"][0])
+            k = nd.root_local(gb, t["args"][1])
+            if m is not None and 1 <= m <= gb.argc and k is not None and 1 <= k <= gb.argc and k != m:
+                out.add(k)
+        else:
+            for j in keyed_overwrites(F, callee_id(t), depth + 1):
+                if j - 1 < len(t["args"]):
+                    k = nd.root_local(gb, t["args"][j - 1])
+                    if k is not None and 1 <= k <= gb.argc:
+                        out.add(k)
+    _KO[fid] = out
+    return out
 
 
 def sorted_after(F, b, recv, header, loop_blocks):
@@ -180,6 +212,24 @@ def run(ctx):
                     bad.append("pushes to sequence `%s` in map order (%s)" % (fl, b.site(sb)))
                 else:
                     tainted_slot.setdefault(key, "%s (%s)" % (f.short, b.site(sb)))
+            # last write wins: a keyed store inside the loop whose key does not vary with the iterated entry keeps the value
+            # of whichever entry the hash order yields last
+            for sb in sorted(blocks):
+                u2 = b.term(sb)
+                if u2["k"] != "call":
+                    continue
+                n2 = callee_name(u2) or ""
+                keys = []
+                if re.search(r"(HashMap|BTreeMap)::<.*>::insert$", n2) and len(u2["args"]) >= 3 and persistent(b, nd.root_local(b, u2["args"][0]), blocks):
+                    keys.append(u2["args"][1])
+                for j in keyed_overwrites(F, callee_id(u2)):
+                    if j - 1 < len(u2["args"]):
+                        keys.append(u2["args"][j - 1])
+                for kop in keys:
+                    sl = ctrl.slice_paths(b, [kop])
+                    varies = any("[*]" in q[1] for q in sl) or any(q[0][0] == "call" for q in sl)
+                    if not varies:
+                        bad.append("stores under a key that is the same for every entry, in map order, so the entry visited last wins (%s via %s)" % (b.site(sb), n2.split("::")[-1]))
             for sb in sorted(blocks):
                 u2 = b.term(sb)
                 if u2["k"] != "call":
